@@ -8,11 +8,12 @@ From EN Require Import Conc.ExcKinds Gen.ParamsC17 Conc.Isolation Proofs.C17_pro
 Import ListNotations.
 
 (* For every Exception-derived exception value (a naked leaf kind or an exception group over any list of leaf kinds)
-   raised at every hook position, with or without a second Exception-derived fault raised by on_disconnection, on the
-   plain and the TLS server: nothing leaves the client task (normal completion), so the task group shared with every
+   raised at every hook position (incl. every kind of yielded delay: None, 0, positive, negative, inf, NaN, non-number,
+   huge), with or without a second Exception-derived fault raised by on_disconnection, on the
+   plain, the TLS standard-compatible and the TLS non-standard-compatible server: nothing leaves the client task (normal completion), so the task group shared with every
    other client is never cancelled. *)
 Theorem client_task_never_raises :
-  forall (tls : bool) (p : position) (e1 : exc) (e2 : option exc),
+  forall (tls : flavour) (p : position) (e1 : exc) (e2 : option exc),
     exc_is_exception e1 = true ->
     match e2 with None => true | Some e => exc_is_exception e end = true ->
     o_raises (tcp_client_task tls p e1 e2) = None.
@@ -32,23 +33,23 @@ Print Assumptions setup_fault_contained.
    handshake inside aclosing(), the linger callback, _on_disconnect) is filtered like a handler fault. *)
 Theorem exit_callback_fault_contained :
   forall e : exc, exc_is_exception e = true ->
-    o_raises (tcp_exit_callback_fault true SAclosing e) = None /\
-    o_raises (tcp_exit_callback_fault false SLinger e) = None /\
-    o_raises (tcp_exit_callback_fault true SOnDisconnect e) = None /\
-    o_raises (tcp_exit_callback_fault false SOnDisconnect e) = None.
+    o_raises (tcp_exit_callback_fault FTlsCompat SAclosing e) = None /\
+    o_raises (tcp_exit_callback_fault FPlain SLinger e) = None /\
+    o_raises (tcp_exit_callback_fault FTlsCompat SOnDisconnect e) = None /\
+    o_raises (tcp_exit_callback_fault FPlain SOnDisconnect e) = None.
 Proof. exact exit_callback_contained_general. Qed.
 Print Assumptions exit_callback_fault_contained.
 
 (* The failing client's connection is closed on every path (even for kinds outside the property). *)
 Theorem failing_client_closed :
-  forall (tls : bool) (p : position) (e1 : exc) (e2 : option exc),
+  forall (tls : flavour) (p : position) (e1 : exc) (e2 : option exc),
     o_closed (tcp_client_task tls p e1 e2) = true.
 Proof. exact tcp_closed_always. Qed.
 Print Assumptions failing_client_closed.
 
 (* on_disconnection runs iff on_connection had completed -- and the hook log shows it (code 4). *)
 Theorem disconnect_hook_iff_connected :
-  forall (tls : bool) (p : position) (e1 : exc) (e2 : option exc),
+  forall (tls : flavour) (p : position) (e1 : exc) (e2 : option exc),
     o_disc_called (tcp_client_task tls p e1 e2) = pos_connected p /\
     existsb (Z.eqb 4) (o_hooks (tcp_client_task tls p e1 e2)) = pos_connected p.
 Proof. intros. split; [apply tcp_disc_iff_connected | apply tcp_hook4_iff_connected]. Qed.
@@ -69,7 +70,7 @@ Example exception_kinds_exist :
   exc_is_exception (Group [KClientClosed; KGeneric; KClientClosed]) = true.
 Proof. reflexivity. Qed.
 Example fatal_kind_escapes :
-  o_raises (tcp_client_task false PHandleAfter (Naked KFatal) None) = Some (Naked KFatal).
+  o_raises (tcp_client_task FPlain PHandleAfter (Naked KFatal) None) = Some (Naked KFatal).
 Proof. exact fatal_escapes_tcp. Qed.
 Example fatal_group_escapes_udp :
   u_raises (udp_client_task UAfter (Group [KGeneric; KFatal])) = Some (Group [KGeneric; KFatal]).
